@@ -141,6 +141,21 @@ def _expect_render(c, x):
     return "symbol-less"
 
 
+def collision_key(c, x, branch):
+    """a collision is identified by what is actually spelled: the prefix pushed onto the first
+    factor (whatever product of prefixes it came from) and that factor's unit"""
+    m = c.m
+    if branch == "pushed" and x.prefix.base:
+        first, e1 = next(iter(x.factors.items()))
+        ex_ = int(x.prefix.exponent)
+        reg = m.Prefix._known.get((x.prefix.base, ex_ // e1))
+        if reg is not None and reg.symbol and first.symbol:
+            pred = predict(c, reg.symbol + first.symbol)
+            if pred is not None and (pred[1] is not first or pred[0] is not reg):
+                return f"{reg.name}+{first.name}"
+    return None
+
+
 def _check_roundtrip(c, out, x, terms, mags):
     m = c.m
     PE = c.w.m.parsing.ParseError if hasattr(c.w.m, "parsing") else None
@@ -150,17 +165,7 @@ def _check_roundtrip(c, out, x, terms, mags):
     branch = _expect_render(c, x)
     out.classes.append(f"render:{branch}")
     s = str(x)
-    # a collision is identified by what is actually spelled: the prefix pushed onto the
-    # first factor (whatever product of prefixes it came from) and that factor's unit
-    pkey = None
-    if branch == "pushed" and x.prefix.base:
-        first, e1 = next(iter(x.factors.items()))
-        ex_ = int(x.prefix.exponent)
-        reg = m.Prefix._known.get((x.prefix.base, ex_ // e1))
-        if reg is not None and reg.symbol and first.symbol:
-            pred = predict(c, reg.symbol + first.symbol)
-            if pred is not None and (pred[1] is not first or pred[0] is not reg):
-                pkey = f"{reg.name}+{first.name}"
+    pkey = collision_key(c, x, branch)
     if pkey is None:
         pkey = "unpredicted:" + "+".join(f"{p or 'none'}+{u}" for p, u, e in terms)
     # ---- unit round trip
